@@ -460,9 +460,10 @@ Proof.
     pose proof (on_client_data_pre cf ps st0 raw parsed l) as H.
     destruct (on_client_data cf ps st0 raw parsed l) as [l1 [st1|st1 f]]; cbn [fst] in *.
     + eapply dok_trans; [exact H|apply IH].
-    + destruct (escapes f); cbn [fst].
+    + destruct (escapes f); [|destruct f]; cbn [fst].
       * eapply dok_trans; [exact H|apply handle_data_end_pre].
       * eapply dok_trans; [exact H|]. eapply dok_trans; [apply handle_data_end_pre|apply IH].
+      * eapply dok_trans; [exact H|apply handle_data_end_pre].
   - destruct (st_upstream st0); [|apply IH].
     pose proof (on_upstream_data_pre ps st0 raw l) as H.
     destruct (on_upstream_data ps st0 raw l) as [l1 [st1|st1 f]]; cbn [fst] in *.
@@ -472,9 +473,10 @@ Proof.
     pose proof (on_request_complete_pre cf ps r c l) as H.
     destruct (on_request_complete cf ps r c l) as [l1 [st1|st1 f]]; cbn [fst] in *.
     + eapply dok_trans; [exact H|apply IH].
-    + destruct (escapes f); cbn [fst].
+    + destruct (escapes f); [|destruct f]; cbn [fst].
       * eapply dok_trans; [exact H|apply handle_data_end_pre].
       * eapply dok_trans; [exact H|]. eapply dok_trans; [apply handle_data_end_pre|apply IH].
+      * eapply dok_trans; [exact H|apply handle_data_end_pre].
 Qed.
 
 (* HttpProxyPlugin exists at shutdown iff some first request completed *)
@@ -494,7 +496,7 @@ Proof.
   - apply IH.
   - destruct dr; [apply IH|].
     destruct (on_client_data cf ps st0 raw parsed l) as [l1 [st1|st1 f]]; [apply IH|].
-    destruct (escapes f); [now exists st1|apply IH].
+    destruct (escapes f); [now exists st1|]. destruct f; [apply IH|now exists st1].
   - destruct (st_upstream st0); [|apply IH].
     destruct (on_upstream_data ps st0 raw l) as [l1 [st1|st1 f]]; [apply IH|now exists st1].
 Qed.
@@ -505,7 +507,7 @@ Proof.
   revert l. induction steps as [|s t IH]; intros l H; [discriminate|]. cbn [existsb] in H.
   destruct s as [r c|raw parsed|raw]; cbn [run_steps is_first orb] in *; try now apply IH.
   destruct (on_request_complete cf ps r c l) as [l1 [st1|st1 f]]; [apply run_steps_some_stays|].
-  destruct (escapes f); [now exists st1|apply run_steps_some_stays].
+  destruct (escapes f); [now exists st1|]. destruct f; [apply run_steps_some_stays|now exists st1].
 Qed.
 
 (* after the teardown decision nothing more happens on a connection without an upstream *)
@@ -514,6 +516,58 @@ Lemma drain_no_upstream cf ps st steps l :
 Proof.
   intros H. induction steps as [|s t IH]; [reflexivity|]. cbn [run_steps].
   destruct s; try exact IH. now rewrite H.
+Qed.
+
+(* ------------------------------------------------------------------ the three ends of reading *)
+(* run_steps follows [read_end_of]: a rejection drains (must_flush_before_shutdown: upstream data still relayed),
+   an OSError of a hook tears the reads (reads_teared: NO further step has any effect), any other exception escapes *)
+Lemma run_steps_first_fail cf ps r c rest l l1 st1 f :
+  on_request_complete cf ps r c l = (l1, Failed st1 f) ->
+  run_steps cf ps None false (SFirst r c :: rest) l =
+  match read_end_of f with
+  | MustFlush => run_steps cf ps (Some st1) true rest (handle_data_end f l1)
+  | ReadsTeared | EscapesLoop => (handle_data_end f l1, Some st1)
+  end.
+Proof.
+  intros H. cbn [run_steps]. rewrite H. destruct f as [resp|e]; cbn [escapes read_end_of]; [reflexivity|].
+  destruct (is_oserror e); reflexivity.
+Qed.
+
+Lemma run_steps_client_fail cf ps st0 raw parses rest l l1 st1 f :
+  on_client_data cf ps st0 raw parses l = (l1, Failed st1 f) ->
+  run_steps cf ps (Some st0) false (SClient raw parses :: rest) l =
+  match read_end_of f with
+  | MustFlush => run_steps cf ps (Some st1) true rest (handle_data_end f l1)
+  | ReadsTeared | EscapesLoop => (handle_data_end f l1, Some st1)
+  end.
+Proof.
+  intros H. cbn [run_steps]. rewrite H. destruct f as [resp|e]; cbn [escapes read_end_of]; [reflexivity|].
+  destruct (is_oserror e); reflexivity.
+Qed.
+
+(* a hook raising OSError under handle_data (first request or later client data): the log gets Teardown and
+   NOTHING that follows in the history — client bytes, upstream chunks — is processed: no hook call, nothing queued *)
+Theorem hook_oserror_tears_reads cf ps n :
+  (forall r c rest l l1 st1, on_request_complete cf ps r c l = (l1, Failed st1 (FRaise (OSError n))) ->
+     run_steps cf ps None false (SFirst r c :: rest) l = (l1 ++ [Teardown], Some st1))
+  /\ (forall st0 raw parses rest l l1 st1, on_client_data cf ps st0 raw parses l = (l1, Failed st1 (FRaise (OSError n))) ->
+     run_steps cf ps (Some st0) false (SClient raw parses :: rest) l = (l1 ++ [Teardown], Some st1)).
+Proof.
+  split; intros.
+  - rewrite (run_steps_first_fail _ _ _ _ _ _ _ _ _ H). reflexivity.
+  - rewrite (run_steps_client_fail _ _ _ _ _ _ _ _ _ _ H). reflexivity.
+Qed.
+
+(* ... whereas after a rejection the upstream is still relayed while the response drains *)
+Theorem rejection_still_relays cf ps st0 raw parses up rest l l1 st1 resp :
+  on_client_data cf ps st0 raw parses l = (l1, Failed st1 (FReject resp)) -> st_upstream st1 = true ->
+  run_steps cf ps (Some st0) false (SClient raw parses :: SUpstream up :: rest) l =
+  match on_upstream_data ps st1 up (handle_data_end (FReject resp) l1) with
+  | (l2, Continue st2) => run_steps cf ps (Some st2) true rest l2
+  | (l2, Failed st2 f) => (upstream_data_end f l2, Some st2)
+  end.
+Proof.
+  intros H Hu. rewrite (run_steps_client_fail _ _ _ _ _ _ _ _ _ _ H). cbn [read_end_of run_steps]. rewrite Hu. reflexivity.
 Qed.
 
 (* ------------------------------------------------------------------ shutdown *)
@@ -1028,7 +1082,7 @@ Proof.
     destruct (on_client_data cf ps st0 raw parsed l) as [l1 [st1|st1 f]]; cbn [fst snd end_state] in *; destruct H as [H1 H2].
     + now apply IH.
     + assert (Q : qclean (handle_data_end f l1)) by (eapply qclean_dok; [exact H1|apply handle_data_end_noup]).
-      destruct (escapes f); [exact Q|now apply IH].
+      destruct (escapes f); [exact Q|]. destruct f; [now apply IH|exact Q].
   - destruct (st_upstream st0); [|now apply IH].
     pose proof (on_upstream_data_noup ps st0 raw l) as H.
     assert (Hsame : forall st1, snd (on_upstream_data ps st0 raw l) = Continue st1 -> st1 = st0).
@@ -1042,7 +1096,7 @@ Proof.
     destruct (on_request_complete cf ps r c l) as [l1 [st1|st1 f]]; cbn [fst snd end_state] in *; destruct H as [H1 H2].
     + now apply IH.
     + assert (Q : qclean (handle_data_end f l1)) by (eapply qclean_dok; [exact H1|apply handle_data_end_noup]).
-      destruct (escapes f); [exact Q|now apply IH].
+      destruct (escapes f); [exact Q|]. destruct f; [now apply IH|exact Q].
 Qed.
 
 (* over every history: whatever is rebuilt and queued for the upstream server carries neither
